@@ -1,7 +1,10 @@
 """C08 -- the calculation graph is consistent and complete.
 
 1. TLC: the chain algorithm's order on the modelled graph (MC_Update, invariant NoStale: every dependent recomputed after
-   everything it depends on, for every topology of the small universe and every input) -- shared with C01.
+   everything it depends on, for every topology of the small universe and every input) -- shared with C01 -- and invariant
+   GraphFresh: after every update no relevant value lists a superseded value object among its ancestors (every slot reading
+   a replaced value object -- a changed input, a recomputed value, ANY entry of a recomputed dictionary -- is itself
+   recomputed afterwards), which is what makes the one-step result extend to every history.
 2. conformance, decided by TLC on graphs read from real systems (spec/EFGraph.tla, Trace_Graph):
    - after every step of seeded histories of edits, simulations and toggles the graph (ancestors and children of every
      value currently held) is projected, together with any reference to a detached / superseded value and the
@@ -152,7 +155,7 @@ def run(tier, out):
     wd = work_dir("c08")
     try:
         tlc.stage_specs(wd)
-        c01.run_model_check(out, wd, tier)
+        c01.run_model_check(out, wd, tier, graph=True)
         ns = efx.load()
         base = seed_from_env() * 100000
         n_hist, n_edits = (14, 6) if tier == "quick" else (250, 15)
